@@ -25,6 +25,7 @@ import EinoV.Expected.C02
 import EinoV.Proofs.C02Workflow
 import EinoV.Expected.C02Workflow
 import EinoV.Proofs.TransDag
+import EinoV.Proofs.TransMgrInit
 
 namespace EinoV.C02
 open EinoV.Engine EinoV.Gen
@@ -775,5 +776,247 @@ example : WF exChan := by unfold WF KeysNodup exChan; decide
 example : (dagChannel_get (extOf natOps 0) exChan false).2 = (1, true, none) := by decide
 
 end Translated
+
+/-! ### The translated channel manager (compose/graph_manager.go → Gen/TransMgr.lean)
+
+  `channelManager.{updateValues, updateDependencies, getFromReadyChannels, updateAndGet, reportBranch}` and the
+  interface `channel` (a sum of `dagChannel | pregelChannel`, checked from the source to be its only
+  implementations) are re-translated from /repo on every run; the theorems below say that the translated
+  functions compute what the model's channel manager (`updateValues`, `updateDeps`, `getReady`,
+  `reportBranch` with `skipOne / skipStep / propagateSkips`) computes.  They hold for both kinds of channel
+  (`r.dag` is the kind of every channel: `ChansOK r.dag`); this property uses them with `r.dag = true`.
+
+  Hypotheses (all proved for what `initChannelManager` builds, `translated_manager_hypotheses_hold`, and
+  returned again by each theorem for the new manager):
+    `Rel r c`      the manager's static tables are the runner's (predecessor sets, successors, channel kind)
+    `ChansOK`      one channel per key (a Go map), of the runner's kind, one entry per predecessor
+    `NoHandlers`   the edge / pre-node handler managers (externals) return their argument and a nil error:
+                   the model has no handlers
+    presence       every addressed key has a channel: `updateValues` / `updateDependencies` return an error
+                   otherwise, `reportBranch` dereferences nil (the outcome `MayPanic.panic`) -/
+section TranslatedManager
+open EinoV.GoSem EinoV.TransMgr EinoV.GoWorkList EinoV.Gen.TransC02 EinoV.Gen.TransC01 EinoV.Gen.TransMgr
+variable {V : Type} [Inhabited V]
+
+theorem translated_manager_source_is_current : FactsC02.channelManagerTranslated = true := by decide
+
+/-- the interface `channel`: each dispatched method is the model's operation on the channel of that kind -/
+theorem translated_channel_methods_refine (ext : Ext V) (ch : channel V) :
+    (∀ ins, chanOf (channel_reportValues ext ch ins).1 = (chanOf ch).reportValues (isDag ch) ins ∧
+      (channel_reportValues ext ch ins).2 = none) ∧
+    (∀ deps, chanOf (channel_reportDependencies ext ch deps) = (chanOf ch).reportDeps (isDag ch) deps) ∧
+    (∀ keys, (chanOf (channel_reportSkip ext ch keys).1, (channel_reportSkip ext ch keys).2)
+      = (chanOf ch).reportSkip (isDag ch) keys) :=
+  ⟨fun ins => ⟨(ch_reportValues ext ch ins).1, (ch_reportValues ext ch ins).2.1⟩,
+   fun deps => (ch_reportDependencies ext ch deps).1, fun keys => (ch_reportSkip ext ch keys).1⟩
+
+/-- `channel.get` -/
+theorem translated_channel_get_refines (ops : ValOps V) (es : V) (ch : channel V) (isStream : Bool) (h : ChWF ch) :
+    chanOf (channel_get (TransDag.extOf ops es) ch isStream).1
+      = ((chanOf ch).get (TransDag.opsFor ops es isStream) (isDag ch)).1 ∧
+    TransDag.getResult (channel_get (TransDag.extOf ops es) ch isStream).2
+      = ((chanOf ch).get (TransDag.opsFor ops es isStream) (isDag ch)).2 :=
+  ⟨(ch_get ops es ch isStream h).1, (ch_get ops es ch isStream h).2.1⟩
+
+/-- `channelManager.updateValues`: no panic, a nil error, and the model's `updateValues` (per target only
+    the declared data predecessors are reported), when every target has a channel -/
+theorem translated_updateValues_refines (ext : Ext V) (mext : MgrExt V) (r : Runner V) (c : channelManager V)
+    (values : GoMap (GoMap V)) (hrel : Rel r c) (hok : ChansOK r.dag c.channels) (hE : NoHandlers mext)
+    (hpres : ∀ w ∈ values, c.channels.has w.1 = true) (hmaps : ∀ w ∈ values, TransDag.KeysNodup w.2) :
+    ∃ c', channelManager_updateValues ext mext c values = .ret (c', none) ∧
+      toChans c'.channels = updateValues r (toChans c.channels) values ∧
+      Frame c c' ∧ ChansOK r.dag c'.channels :=
+  updateValues_refines ext mext r c values hrel hok hE hpres hmaps
+
+/-- `channelManager.updateDependencies` -/
+theorem translated_updateDependencies_refines (ext : Ext V) (mext : MgrExt V) (r : Runner V)
+    (c : channelManager V) (deps : GoMap (List String)) (hrel : Rel r c) (hok : ChansOK r.dag c.channels)
+    (hpres : ∀ d ∈ deps, c.channels.has d.1 = true) :
+    ∃ c', channelManager_updateDependencies ext mext c deps = .ret (c', none) ∧
+      toChans c'.channels = updateDeps r (toChans c.channels) deps ∧
+      Frame c c' ∧ ChansOK r.dag c'.channels :=
+  updateDependencies_refines ext mext r c deps hrel hok hpres
+
+/-- `channelManager.getFromReadyChannels` against `getReady`: no `get` fails exactly when the model reports
+    no merge error, and then channels and ready values are the model's; otherwise an error and a nil map
+    (Go stops at the first failing channel, the model resets the others too: the run is over) -/
+theorem translated_getFromReadyChannels_refines (ops : ValOps V) (es : V) (mext : MgrExt V) (dag : Bool)
+    (c : channelManager V) (hok : ChansOK dag c.channels) (hE : NoHandlers mext) :
+    let g := getReady (TransDag.opsFor ops es c.isStream) dag (toChans c.channels)
+    let res := channelManager_getFromReadyChannels (TransDag.extOf ops es) mext c
+    (g.2.2 = false → toChans res.1.channels = g.1 ∧ res.2.1 = g.2.1 ∧ res.2.2 = none ∧
+        Frame c res.1 ∧ ChansOK dag res.1.channels) ∧
+    (g.2.2 = true → res.2.2.isSome = true ∧ res.2.1 = []) :=
+  getFromReadyChannels_refines ops es mext dag c hok hE
+
+/-- `channelManager.updateAndGet` is the channel part of the model's `calcNext`:
+    `updateValues`, then `updateDeps`, then `getReady` -/
+theorem translated_updateAndGet_refines (ops : ValOps V) (es : V) (mext : MgrExt V) (r : Runner V)
+    (c : channelManager V) (values : GoMap (GoMap V)) (deps : GoMap (List String))
+    (hrel : Rel r c) (hok : ChansOK r.dag c.channels) (hE : NoHandlers mext)
+    (hpv : ∀ w ∈ values, c.channels.has w.1 = true) (hmaps : ∀ w ∈ values, TransDag.KeysNodup w.2)
+    (hpd : ∀ d ∈ deps, c.channels.has d.1 = true) :
+    let g := getReady (TransDag.opsFor ops es c.isStream) r.dag
+      (updateDeps r (updateValues r (toChans c.channels) values) deps)
+    ∃ res, channelManager_updateAndGet (TransDag.extOf ops es) mext c values deps = .ret res ∧
+      (g.2.2 = false → toChans res.1.channels = g.1 ∧ res.2.1 = g.2.1 ∧ res.2.2 = none ∧
+        Frame c res.1 ∧ ChansOK r.dag res.1.channels) ∧
+      (g.2.2 = true → res.2.2.isSome = true ∧ res.2.1 = []) :=
+  updateAndGet_refines ops es mext r c values deps hrel hok hE hpv hmaps hpd
+
+/-- `channelManager.reportBranch`, step 1: the translated function computes Go's work list (`goReportBranch`:
+    a key is appended whenever `reportSkip` returns true) on the model's channels — for every fuel with which
+    that list is exhausted (the Go loop has no fuel); no nil dereference when every successor and every
+    skipped node has a channel -/
+theorem translated_reportBranch_is_go_worklist (ext : Ext V) (mext : MgrExt V) (r : Runner V)
+    (c : channelManager V) (fuel : Nat) (from_ : Key) (sk : List Key) (hrel : Rel r c)
+    (hok : ChansOK r.dag c.channels) (hcl : SuccClosed c) (hsk : ∀ s ∈ sk, c.channels.has s = true)
+    (res : Except Err (Chans V)) (hgo : goReportBranch r fuel (toChans c.channels) from_ sk = some res) :
+    ∃ c' e, channelManager_reportBranch ext mext fuel c from_ sk = .ret (c', e) ∧
+      match (generalizing := false) res with
+      | .ok cm' => e = none ∧ toChans c'.channels = cm' ∧ Frame c c' ∧ ChansOK r.dag c'.channels
+      | .error _ => e = some (GoErr.mk "unknown node: %s") :=
+  reportBranch_go ext mext r c fuel from_ sk hrel hok hcl hsk res hgo
+
+omit [Inhabited V] in
+/-- step 2 (about the model alone): Go's work list and the model's (`skipOne` pushes a key only when it
+    *becomes* skipped, fuel `(n+2)²`) have the same outcome — a key Go pops in addition has passed its skip
+    on already, and reporting a skip twice changes nothing; the model's fuel is never exhausted.
+    `SkipClosed` (every skipped channel has passed its skip on) and `AllSkImp` hold initially and are kept. -/
+theorem go_worklist_is_model_worklist (r : Runner V) (fuel : Nat) (cm : Chans V) (from_ : Key) (sk : List Key)
+    (R : Except Err (Chans V)) (hnd : (akeys cm).Nodup) (hsk : AllSkImp cm) (hcl : SkipClosed r cm)
+    (hlen : cm.length ≤ (r.nodes.length + 2) * (r.nodes.length + 2))
+    (hgo : goReportBranch r fuel cm from_ sk = some R) :
+    reportBranch r cm from_ sk = R ∧
+      ∀ cm', R = .ok cm' → r.dag = true → (akeys cm').Nodup ∧ AllSkImp cm' ∧ SkipClosed r cm' :=
+  goReportBranch_eq r fuel cm from_ sk R hnd hsk hcl hlen hgo
+
+/-- `channelManager.reportBranch` refines the model's `reportBranch` (both steps together): whenever the Go
+    loop runs to completion, no panic, and the model's channels with a nil error — or the error
+    "unknown node" exactly when the model reports `endSkipped` -/
+theorem translated_reportBranch_refines (ext : Ext V) (mext : MgrExt V) (r : Runner V) (c : channelManager V)
+    (fuel : Nat) (from_ : Key) (sk : List Key) (hrel : Rel r c) (hok : ChansOK r.dag c.channels)
+    (hcl : SuccClosed c) (hsk : ∀ s ∈ sk, c.channels.has s = true)
+    (hsi : AllSkImp (toChans c.channels)) (hsc : SkipClosed r (toChans c.channels))
+    (hlen : c.channels.length ≤ (r.nodes.length + 2) * (r.nodes.length + 2))
+    (R : Except Err (Chans V)) (hgo : goReportBranch r fuel (toChans c.channels) from_ sk = some R) :
+    reportBranch r (toChans c.channels) from_ sk = R ∧
+    ∃ c' e, channelManager_reportBranch ext mext fuel c from_ sk = .ret (c', e) ∧
+      match (generalizing := false) R with
+      | .ok cm' => e = none ∧ toChans c'.channels = cm' ∧ Frame c c' ∧ ChansOK r.dag c'.channels ∧
+          (r.dag = true → AllSkImp cm' ∧ SkipClosed r cm')
+      | .error _ => e = some (GoErr.mk "unknown node: %s") :=
+  reportBranch_refines ext mext r c fuel from_ sk hrel hok hcl hsk hsi hsc hlen R hgo
+
+/-- `channelManager.reportBranch` refines the model's `reportBranch`, without a condition on the fuel, when
+    the successor relation is acyclic (`rank`; what `validateDAG` enforces, `translated_manager_acyclic`):
+    the Go loop terminates — there is a fuel `N` from which on the translated loop exhausts its work list —
+    and then the function does not panic and returns the model's channels with a nil error, or the error
+    "unknown node" exactly when the model reports `endSkipped` (END became skipped) -/
+theorem translated_reportBranch_total (ext : Ext V) (mext : MgrExt V) (r : Runner V) (c : channelManager V)
+    (from_ : Key) (sk : List Key) (hrel : Rel r c) (hok : ChansOK r.dag c.channels) (hcl : SuccClosed c)
+    (hsk : ∀ s ∈ sk, c.channels.has s = true)
+    (hsi : AllSkImp (toChans c.channels)) (hsc : SkipClosed r (toChans c.channels))
+    (hlen : c.channels.length ≤ (r.nodes.length + 2) * (r.nodes.length + 2))
+    (rank : Key → Nat) (hacyc : r.dag = true → ∀ n ∈ r.nodes, ∀ s ∈ n.successors, rank n.key < rank s) :
+    ∃ N, ∀ fuel, N ≤ fuel →
+      ∃ c' e, channelManager_reportBranch ext mext fuel c from_ sk = .ret (c', e) ∧
+        match reportBranch r (toChans c.channels) from_ sk with
+        | .ok cm' => e = none ∧ toChans c'.channels = cm' ∧ Frame c c' ∧ ChansOK r.dag c'.channels ∧
+            (r.dag = true → AllSkImp cm' ∧ SkipClosed r cm')
+        | .error _ => e = some (GoErr.mk "unknown node: %s") :=
+  reportBranch_total ext mext r c from_ sk hrel hok hcl hsk hsi hsc hlen rank hacyc
+
+/-- the acyclicity hypothesis for a compiled all-predecessor runner -/
+theorem translated_manager_acyclic (r : Runner V) (wf : DagRun.DagWF r) (hc : RunnerClosed r) :
+    ∃ rank : Key → Nat, ∀ n ∈ r.nodes, ∀ s ∈ n.successors, rank n.key < rank s :=
+  acyc_of_dagWF r wf hc
+
+/-- the hypotheses are what `initChannelManager` establishes for a compiled runner: `initMgr r s` is the
+    manager built from the runner (its channels are the model's `initChans`); closedness holds for every
+    runner `compile` builds from a graph definition whose edges and branch ends are nodes or END -/
+theorem translated_manager_hypotheses_hold (r : Runner V) (s : Bool) (hnd : (akeys (initChans r)).Nodup) :
+    Rel r (initMgr r s) ∧ ChansOK r.dag (initMgr r s).channels ∧
+    toChans (initMgr r s).channels = initChans r ∧
+    SkipClosed r (initChans r) ∧ AllSkImp (initChans r) ∧
+    (initMgr r s).channels.length ≤ (r.nodes.length + 2) * (r.nodes.length + 2) ∧
+    (RunnerClosed r → SuccClosed (initMgr r s)) ∧
+    (∀ (slack : Nat) (g : GraphDef V), DagRun.GraphDefWF g → RunnerClosed (compile slack g)) :=
+  ⟨initMgr_rel r s, initMgr_ok r s hnd, initMgr_chans r s, (init_skipClosed r).1, (init_skipClosed r).2,
+   initMgr_len r s, initMgr_closed r s, fun slack g wf => compile_closed slack g wf.edgeTo wf.brTo⟩
+
+/-! non-vacuity: a concrete runner, the manager built for it, and runs of the translated functions -/
+
+/-- a → branch {b, c};  b → end;  c → end  (all-predecessor mode) -/
+def exR2 : Runner Nat :=
+  { nodes := [{ key := "a", act := fun v => .ok v, branches := [{ ends := ["b", "c"], cond := fun _ => .ok ["c"] }] },
+              { key := "b", act := fun v => .ok v, writeTo := ["end"], controls := ["end"] },
+              { key := "c", act := fun v => .ok v, writeTo := ["end"], controls := ["end"] }],
+    start := { key := "start", act := fun v => .ok v, writeTo := ["a"], controls := ["a"] },
+    dataPreds := [("a", ["start"]), ("b", ["a"]), ("c", ["a"]), ("end", ["b", "c"])],
+    ctrlPreds := [("a", ["start"]), ("b", ["a"]), ("c", ["a"]), ("end", ["b", "c"])],
+    maxSteps := 0, dag := true }
+
+def noH : MgrExt Nat := { edgeHandle := fun _ _ v _ => (v, none), preNodeHandle := fun _ v _ => (v, none) }
+
+example : NoHandlers noH := ⟨fun _ _ _ _ => rfl, fun _ _ _ => rfl⟩
+example : Rel exR2 (initMgr exR2 false) := initMgr_rel _ _
+example : ChansOK exR2.dag (initMgr exR2 false).channels := initMgr_ok exR2 false (by decide)
+example : SuccClosed (initMgr exR2 false) := initMgr_closed exR2 false (by unfold RunnerClosed; decide)
+
+/-- the branch at `a` deselects `b`: `b` becomes skipped, END learns that `b` is skipped and keeps waiting for `c` -/
+example : (match channelManager_reportBranch (TransDag.extOf natOps 0) noH 10 (initMgr exR2 false) "a" ["b"] with
+    | .ret (c', none) => (toChans c'.channels).map (fun p => (p.1, p.2.skipped, p.2.ctrl))
+    | _ => []) =
+    [("a", false, [("start", Dep.waiting)]), ("b", true, [("a", Dep.skipped)]), ("c", false, [("a", Dep.waiting)]),
+     ("end", false, [("b", Dep.skipped), ("c", Dep.waiting)])] := by decide
+
+/-- both ends deselected: END becomes skipped — the error "unknown node" (Go pops b, c, end) -/
+example : (match channelManager_reportBranch (TransDag.extOf natOps 0) noH 10 (initMgr exR2 false) "a" ["b", "c"] with
+    | .ret (_, some (GoErr.mk s)) => s
+    | _ => "") = "unknown node: %s" := by decide
+
+/-- the Go work list of that call is exhausted with fuel 10 (it pops b, c, end, end) -/
+example : (match goReportBranch exR2 10 (initChans exR2) "a" ["b", "c"] with
+    | some (.error e) => e.cls == ErrClass.endSkipped
+    | _ => false) = true := by decide
+
+/-- a missing channel: the nil dereference is explicit -/
+example : (match channelManager_reportBranch (TransDag.extOf natOps 0) noH 10 (initMgr exR2 false) "a" ["nope"] with
+    | .panic => true
+    | _ => false) = true := by decide
+
+/-- one step of the engine through the translated `updateAndGet`: START's value reaches `a` -/
+example : (match channelManager_updateAndGet (TransDag.extOf natOps 0) noH (initMgr exR2 false)
+      [("a", [("start", 7)])] [("a", ["start"])] with
+    | .ret r => r.2.1
+    | .panic => []) = [("a", 7)] := by decide
+
+/-- why `SkipClosed` is a hypothesis: `s` (control predecessor `a`, data-only predecessor `b`) was skipped and
+    told `t`; then `t` ran (its other predecessor `u` finished) and was reset; now `b` is skipped.  Go's
+    `reportSkip(s, [b])` returns true again, `s` is popped a second time and marks `t`'s (reset) entry for `s`
+    skipped; the model does not pop `s` again.  (No later `get` of `t` is affected in an acyclic graph: `u`
+    never completes again.) -/
+def exR3 : Runner Nat :=
+  { nodes := [{ key := "b", act := fun v => .ok v, writeTo := ["s"] },
+              { key := "s", act := fun v => .ok v, writeTo := ["t"], controls := ["t"] },
+              { key := "t", act := fun v => .ok v, writeTo := ["end"], controls := ["end"] }],
+    start := { key := "start", act := fun v => .ok v },
+    dataPreds := [], ctrlPreds := [], maxSteps := 0, dag := true }
+
+def exCm3 : Chans Nat :=
+  [("b", { ctrl := [("x", Dep.waiting)] }),
+   ("s", { ctrl := [("a", Dep.skipped)], data := [("a", true), ("b", false)], skipped := true }),
+   ("t", { ctrl := [("s", Dep.waiting), ("u", Dep.waiting)] }),
+   ("end", { ctrl := [("t", Dep.waiting)] })]
+
+def ctrlOfT (cm : Chans Nat) : List (Key × Dep) := ((alookup "t" cm).map (·.ctrl)).getD []
+
+example : (match goReportBranch exR3 10 exCm3 "x" ["b"] with
+    | some (.ok cm) => ctrlOfT cm | _ => []) = [("s", Dep.skipped), ("u", Dep.waiting)] := by decide
+example : (match reportBranch exR3 exCm3 "x" ["b"] with
+    | .ok cm => ctrlOfT cm | _ => []) = [("s", Dep.waiting), ("u", Dep.waiting)] := by decide
+
+end TranslatedManager
 
 end EinoV.C02
